@@ -155,6 +155,20 @@ def check_lazy(case, ctx):
         v = norm_of(ctx, lazy, p)
         ctx.require(abs(v - ref) <= 1e-8 * ref + 1e-300, "p_norm_lazy", lambda: "p_norm(%r) = %r, integral %r" % (p, v, ref))
     ctx.require(close(s, sup, LD.coord_scale(bars)), "sup_norm_lazy", lambda: "sup_norm on a lazily computed landscape = %r, max |ordinate| %r" % (s, sup))
+    # the same for the grid class: first use of a lazily built grid landscape is a norm
+    lo, hi = min(b for b, _ in bars), max(d for _, d in bars)
+    kw = dict(dgms=[np.array(bars, dtype=float)], hom_deg=0, start=lo, stop=hi, num_steps=25)
+    eager_g = ctx.call(PersLandscapeApprox, **kw)
+    if not (isinstance(eager_g.values, np.ndarray) and eager_g.values.dtype.kind in "US"):
+        lazy_g = ctx.call(PersLandscapeApprox, compute=False, **kw)
+        want_sup = float(np.max(np.abs(np.asarray(eager_g.values, dtype=float))))
+        want_p = float(ctx.call(eager_g.p_norm, p=p))
+        if case["first"] == "p_norm":
+            got_p, got_sup = float(ctx.call(lazy_g.p_norm, p=p)), float(ctx.call(lazy_g.sup_norm))
+        else:
+            got_sup, got_p = float(ctx.call(lazy_g.sup_norm)), float(ctx.call(lazy_g.p_norm, p=p))
+        ctx.require(got_sup == want_sup and got_p == want_p, "grid_norm_lazy",
+                    lambda: "lazily built grid landscape: sup %r / p-norm %r, eagerly built twin: %r / %r; bars=%s" % (got_sup, got_p, want_sup, want_p, bars))
 
 
 @st.composite
